@@ -8,14 +8,18 @@ from fractions import Fraction
 
 import numpy as np
 
+import lib
 import twoindex
 from lib import XShell, run_cases, sx
 
 RULE = ("block level: every (l_a, l_b) in 0..5 x 0..5 (both L_a>=L_b and L_a<L_b) enumerated; 1-5 charges of either sign "
         "placed on a Gaussian centre, between the centres, near and far (Boys arguments from 0 to > 1e4 occur: the "
         "evidence lists the largest); basis level 1-4 shells cart/sph/mixed with/without transform, nuclear "
-        "attraction = sum over charges; tolerance 1e-8*sqrt(|V_aa V_bb|) per charge from the exact model; distinct by "
-        "input hash")
+        "attraction = sum over charges; tolerance 1e-8*sqrt(|V_aa V_bb|) per charge from the exact model; direct sweep of "
+        "PointChargeIntegral.boys_func (array shapes of the integral code): orders 0..10 x arguments {0, 5e-324, 1e-300, "
+        "..., 1e-32, 1e-31, 1e-30, 2e-30, 1e-29 .. 1e-24 (what coincident product centres give through rounding), every "
+        "decade to 1e6, 0.5, 2, 5, 20..100} + 21 seeded 53-bit arguments log-uniform in 1e-33..1e6, against mpmath at "
+        "1e-11 relative; distinct by input hash")
 ASSUMPTIONS = ["rounding of the NumPy pipeline and of scipy.special.hyp1f1 is not modelled: accuracy is decided on the "
                "generated inputs against the exact value (Boys function by mpmath at 260 bits)"]
 
@@ -93,7 +97,19 @@ KERNEL = dict(
     name="pointcharge",
     block_cmd=lambda case, sa, sb: "(14 %s %s %s)" % (sx(_pts(case)), sa.sx(), sb.sx()),
     int_cmd=_int_cmd, impl_block=_impl_block, impl_int=_impl_int, post=lambda a: a, tol=_tol, extra_check=_extra)
-eval_case = twoindex.make_eval(KERNEL)
+_eval_int = twoindex.make_eval(KERNEL)
+
+
+def eval_case(model, case):
+    if case["kind"] == "boys":
+        return lib.eval_boys_case(case)
+    return _eval_int(model, case)
+
+
+def shrink_case(case):
+    if case["kind"] == "boys":
+        return lib.shrink_boys_case(case)
+    return twoindex.shrink_case(case)
 
 
 def place_points(rng, centres, n):
@@ -135,9 +151,11 @@ def gen_cases(tier, seed):
             centres = [[Fraction(x) for x in s["coord"]] for s in c["basis"]]
             c["pts"] = place_points(rng, centres, rng.randint(1, 5))
             c["nuclear"] = (i % 2 == 0)
+    # the Boys function itself: orders 0..10 (l_a + l_b <= 10), arguments 0, 5e-324 .. 1e6
+    cases += lib.boys_cases(seed, 10, "pointcharge")
     return cases
 
 
 def run(rep, tier, seed, model, replay):
     cases = [replay["case"]] if replay is not None else gen_cases(tier, seed)
-    run_cases(rep, cases, eval_case, shrinkfn=twoindex.shrink_case)
+    run_cases(rep, cases, eval_case, shrinkfn=shrink_case)
